@@ -72,6 +72,9 @@ ROLE_OF_PARAM = {
     'draws': {'DRAWS'},
 }
 
+#: (engine class, method, parameter) whose default is None in the engine source: None handed over there is the parameter not being given
+ENGINE_DEFAULT_NONE = {('pyBiogeme', 'setExpressions', 'weightFormulas')}
+
 #: parameter names the slots are described by: such a parameter is a role of its own and is not traced to the call sites
 PARAM_ROLES = {r for v in ROLE_OF_PARAM.values() for r in v if r.startswith('PARAM:')}
 
@@ -84,6 +87,7 @@ def check_reader_table(ctx: Ctx, rule: str) -> None:
     src = open(PYX, encoding='utf-8', errors='replace').read()
     cur = None
     found: dict[str, dict[str, list[str]]] = {}
+    defaults: set[tuple[str, str, str]] = set()
     for m in re.finditer(r'^cdef class (\w+):|^\tdef (\w+)\(([^)]*)\)', src, re.M | re.S):
         if m.group(1):
             cur = m.group(1)
@@ -91,11 +95,16 @@ def check_reader_table(ctx: Ctx, rule: str) -> None:
         elif cur and not m.group(2).startswith('__'):
             ps = [p.strip().split('=')[0].strip() for p in m.group(3).replace('\n', ' ').split(',')]
             found[cur][m.group(2)] = [p for p in ps if p and p != 'self']
+            for p in m.group(3).replace('\n', ' ').split(','):
+                if '=' in p and p.split('=')[1].strip() == 'None':
+                    defaults.add((cur, m.group(2), p.split('=')[0].strip()))
     for c, ms in ENGINE_API.items():
         for name, params in ms.items():
             got = found.get(c, {}).get(name)
             if got != params:
                 raise AnalysisError(f'{rule}: frozen engine API {c}.{name}{params} differs from the installed engine source: {got}')
+    if not ENGINE_DEFAULT_NONE <= defaults:
+        raise AnalysisError(f'{rule}: frozen table of the engine parameters that default to None {sorted(ENGINE_DEFAULT_NONE)} differs from the installed engine source: {sorted(defaults)}')
 
 
 class RoleFinder:
@@ -205,7 +214,75 @@ class RoleFinder:
                 return True
         return False
 
+    def _rebinds(self, method: str, attr: str, depth: int = 2) -> bool:
+        """some method of that name assigns `self.<attr>` (itself, or through a method it calls on self)"""
+        cache = self.__dict__.setdefault('_rebinds_cache', {})
+        key = (method, attr)
+        if key in cache:
+            return cache[key]
+        cache[key] = False
+        out = False
+        for g in self.prog.methods_named(method):
+            for n in walk_no_nested(g.node):
+                ts = n.targets if isinstance(n, ast.Assign) else [n.target] if isinstance(n, (ast.AugAssign, ast.AnnAssign)) else []
+                if any(isinstance(x, ast.Attribute) and isinstance(x.ctx, ast.Store) and x.attr == attr and isinstance(x.value, ast.Name) and x.value.id == 'self' for t in ts for x in ast.walk(t)):
+                    out = True
+                elif depth > 0 and isinstance(n, ast.Call) and isinstance(n.func, ast.Attribute) and isinstance(n.func.value, ast.Name) and n.func.value.id == 'self' and n.func.attr != method:
+                    out = out or self._rebinds(n.func.attr, attr, depth - 1)
+            if out:
+                break
+        cache[key] = out
+        return out
+
+    def _read_before_rebind(self, expr: ast.expr, f: FuncInfo, depth: int = 3) -> str | None:
+        """a local that is a plain copy of an attribute `<owner>.<attr>` stands for that attribute only as long as nothing re-binds the attribute between
+        the copy and the read: the name of the call `<owner>.<method>()` on a path from the copy to the read, where a method of that name assigns
+        self.<attr> (the local then holds what the attribute was before: `m = db.individualMap; db.build_panel_map(); engine.setDataMap(m)`)"""
+        from .core import inline_locals
+
+        if not isinstance(expr, ast.Name):
+            return None
+        cfg = cfg_of(f.node)
+        at = cfg.node_of(expr)
+        if at is None:
+            return None
+        todo = [(expr.id, at, at, depth)]
+        while todo:
+            name, read_at, use_at, dp = todo.pop()
+            ds = cfg.reaching(read_at, name)
+            kills = {x.node for x in ds}
+            for d in ds:
+                if d.kind != 'assign' or d.value is None:
+                    continue
+                if isinstance(d.value, ast.Name) and dp > 0:
+                    todo.append((d.value.id, d.node, use_at, dp - 1))
+                    continue
+                if not isinstance(d.value, ast.Attribute):
+                    continue
+                owner = unparse(inline_locals(f.node, d.value.value))
+                for c in walk_no_nested(f.node):
+                    if not (isinstance(c, ast.Call) and isinstance(c.func, ast.Attribute)):
+                        continue
+                    n = cfg.node_of(c)
+                    if n is None or n in (d.node, use_at):
+                        continue
+                    if unparse(inline_locals(f.node, c.func.value)) != owner or not self._rebinds(c.func.attr, d.value.attr):
+                        continue
+                    if cfg.path_avoiding(d.node, n, kills - {d.node}) and cfg.path_avoiding(n, use_at, {d.node}):
+                        return f'{unparse(c.func)}()'
+        return None
+
     def role(self, expr: ast.expr, f: FuncInfo, depth: int = 0) -> str:
+        r_ = self._role(expr, f, depth)
+        if isinstance(expr, ast.Name) and not r_.startswith('?'):
+            late = self._read_before_rebind(expr, f)
+            if late is not None:
+                # the table / the map as it was before it was rebuilt is another object than the one the engine must read; for the other roles the
+                # rule only says that it does not know
+                return f'{r_}_AS_IT_WAS_BEFORE_{late}' if r_ in ('MAP', 'DATA') else f'?{unparse(expr)} (read before {late})'
+        return r_
+
+    def _role(self, expr: ast.expr, f: FuncInfo, depth: int = 0) -> str:
         origins = self._origins(expr, f)
         roles = {self._role1(o, f, depth) for o in origins}
         if len(roles) == 1:
@@ -342,6 +419,37 @@ class RoleFinder:
         return f'?{t[:50]}'
 
 
+def positional_args(fn: ast.AST, call: ast.Call) -> tuple[list[ast.expr], bool]:
+    """(the positional arguments of the call in the order the callee receives them, complete): `*t` where t is a tuple / list written out (in place, or
+    a local bound once to one and not changed in place) is its elements; complete is False when some other `*` stands among the arguments: what comes
+    after it lands in slots the rule cannot number, and the list stops there"""
+    from .core import _single_definitions
+
+    out: list[ast.expr] = []
+    for a in call.args:
+        if not isinstance(a, ast.Starred):
+            out.append(a)
+            continue
+        v = a.value
+        if isinstance(v, ast.Name):
+            v = _single_definitions(fn).get(v.id)  # (the statement's own nodes: their place in the function is known)
+        if isinstance(v, (ast.Tuple, ast.List)) and not any(isinstance(x, ast.Starred) for x in v.elts):
+            out.extend(v.elts)
+            continue
+        return out, False
+    return out, True
+
+
+def _stmt_of(fn: ast.AST, node: ast.AST) -> ast.stmt | None:
+    """the innermost statement of fn that holds node"""
+    best = None
+    for st in walk_no_nested(fn):
+        if isinstance(st, ast.stmt) and st is not fn and any(x is node for x in ast.walk(st)):
+            if best is None or any(x is st for x in ast.walk(best)):
+                best = st
+    return best
+
+
 def engine_receivers(prog: Program) -> list[tuple[FuncInfo, str, str]]:
     """(function, receiver text, engine class) for every object created from the engine"""
     out = []
@@ -371,6 +479,12 @@ def ecc(ctx: Ctx, rule: str, only_class: str | None = None, methods: set[str] | 
         if rtext.startswith('self.') and f0.cls is not None:
             # (a helper that is new and whose calls were all expanded in place is examined through its callers: sa/normal.py)
             scope = [g for g in f0.cls.methods.values() if not getattr(g.node, '_verif_transparent', False)]
+            # (the closures of these methods talk to the same engine object)
+            def _top(h):
+                while h.parent is not None:
+                    h = h.parent
+                return h
+            scope += [h for h in f0.module.all_functions if h.parent is not None and any(_top(h) is g for g in scope)]
         for g in scope:
             for c in walk_no_nested(g.node):
                 if not (isinstance(c, ast.Call) and isinstance(c.func, ast.Attribute) and unparse(c.func.value) == rtext):
@@ -384,19 +498,36 @@ def ecc(ctx: Ctx, rule: str, only_class: str | None = None, methods: set[str] | 
                     continue
                 params = ENGINE_API[ecls][m]
                 bound: list[tuple[str, ast.expr]] = []
-                for i, a in enumerate(c.args):
+                pos, whole = positional_args(g.node, c)
+                for i, a in enumerate(pos):
                     if i < len(params):
                         bound.append((params[i], a))
                     else:
                         ctx.add(rule, construct, False, (g.file, c.lineno), f'too many arguments for {m}', unparse(c))
+                if not whole:
+                    # a `*` the rule cannot read: the slots after it are not numbered
+                    n += 1
+                    ctx.add(rule, f'{construct}(*)', None, (g.file, c.lineno), f'{m}(...) is called with a starred argument the rule cannot read ({unparse(c)[:80]}): which slot the arguments after it land in is not decided', unparse(c))
                 for k in c.keywords:
-                    if k.arg in params:
+                    if k.arg is None:
+                        n += 1
+                        ctx.add(rule, f'{construct}(**)', None, (g.file, c.lineno), f'{m}(...) is called with `**{unparse(k.value)[:40]}`: the slots it fills are not decided', unparse(c))
+                    elif k.arg in params:
                         bound.append((k.arg, k.value))
                     else:
                         ctx.add(rule, construct, False, (g.file, c.lineno), f'{m} has no parameter {k.arg}', unparse(c))
                 for p, a in bound:
                     role = rf.role(a, g)
                     want = ROLE_OF_PARAM.get(p, set())
+                    if role == 'LIT:None' and (ecls, m, p) in ENGINE_DEFAULT_NONE:
+                        # None where the engine's own default is None: the argument is not given.  Whether leaving it out is right there is the
+                        # business of the test the call stands under, which the rule reads only in its plain form
+                        under = RoleFinder._branches(g.node).get(id(_stmt_of(g.node, c)), ())
+                        absent = any((unparse(i_.test), o_) in ((f'self.{q_} is None', True), (f'self.{q_} is not None', False), (f'not self.{q_} is None', False)) for i_, o_ in under for q_ in ('weight',))
+                        n += 1
+                        ctx.add(rule, f'{construct}({p})', True if absent else None, (g.file, c.lineno),
+                                f'{m}({p}=None): not given (the default of the engine)' + ('' if absent else '; the call does not stand under a test that says that there is no such formula: not decided'), detail=f'{p}<-{role}')
+                        continue
                     parts = role[6:-1].split('|') if role.startswith('MIXED(') else [role]
                     ok = all(r_ in want for r_ in parts)
                     # what the rule cannot tell is not an accusation: an expression without a role; a parameter that is not one
@@ -449,7 +580,8 @@ def fwd(ctx: Ctx, rule: str) -> int:
                         f'{call_name(c)}({k.arg}={k.value.id})' + ('' if ok else f': the flag {k.value.id} of the caller lands in {k.arg}'),
                         detail=f'{k.arg}={k.value.id}')
             # positional hand-over to a resolved callee
-            if any(isinstance(a, ast.Name) and a.id in flags for a in c.args):
+            pos_args, _whole = positional_args(f.node, c)  # (`*t` with t written out is its elements; the list stops at a `*` the rule cannot read)
+            if any(isinstance(a, ast.Name) and a.id in flags for a in pos_args):
                 tg = prog.resolve_call(f, c)
                 if len(tg) >= 1:
                     g = tg[0]
@@ -458,7 +590,7 @@ def fwd(ctx: Ctx, rule: str) -> int:
                         ps = ps[1:]
                     elif g.cls is not None and 'staticmethod' not in g.decorators():
                         ps = ps  # Cls.method(self, ...) called explicitly
-                    for i, a in enumerate(c.args):
+                    for i, a in enumerate(pos_args):
                         if isinstance(a, ast.Name) and a.id in flags and i < len(ps) and _strip(ps[i]) in FLAGS:
                             ok = _strip(ps[i]) == _strip(a.id)
                             n += 1
@@ -551,37 +683,131 @@ def _order_of(e: ast.expr) -> tuple[str, str, str] | None:
 ORDER_FREE = {'dict', 'set', 'frozenset', 'sorted', 'any', 'all', 'len', 'sum', 'min', 'max', 'Counter'}
 
 
-def _order_free_use(func: ast.AST, parents: dict, node: ast.AST) -> bool:
-    """the sequence built at `node` (a comprehension, or a loop appending to a list) is consumed without regard to its order:
-    handed directly to dict/set/sorted/..., or kept in a local that is sorted in place or only read through such consumers"""
-    def consumed(x):
-        p = parents.get(id(x))
-        return isinstance(p, ast.Call) and isinstance(p.func, ast.Name) and p.func.id in ORDER_FREE and x in p.args
+_TABLE_ITER_RE = re.compile(r'^(?P<table>[\w.]*?\.?(free|fixed)_betas\.expressions)(\.values\(\)|\.items\(\)|\.keys\(\))?$')
 
-    local = None
+
+def _sequence_use(func: ast.AST, parents: dict, node: ast.AST) -> str:
+    """how the sequence built at `node` (a comprehension over a table of parameters, or a loop over it appending to lists) is consumed:
+    'free': without regard to its order: handed to dict/set/sorted/..., to <dict>.update, iterated by a dictionary comprehension (the result is keyed by
+            what the elements carry), zipped with sequences built by going through the same table and then consumed so, or kept in a local that is
+            sorted in place or only read in these ways;
+    'positional': stored in an attribute, in an element of an attribute, or returned: a per-parameter vector whose k-th entry others read by position;
+    'unknown': anything else (handed to a function the rule does not know, formatted in a message, ...)"""
+    def built_over(name: str) -> str | None:
+        """the table a local list was built by going through, entry by entry: `L = [.. for .. in T]` (no filter), or `L.append(..)` once per turn of `for .. in T`"""
+        tables = set()
+        for st in walk_no_nested(func):
+            if isinstance(st, ast.Assign) and len(st.targets) == 1 and isinstance(st.targets[0], ast.Name) and st.targets[0].id == name:
+                v = st.value
+                if isinstance(v, ast.ListComp) and len(v.generators) == 1 and not v.generators[0].ifs:
+                    m = _TABLE_ITER_RE.match(unparse(v.generators[0].iter))
+                    tables.add(m.group('table') if m else None)
+                elif isinstance(v, ast.List) and not v.elts:
+                    continue
+                else:
+                    tables.add(None)
+            elif isinstance(st, ast.For):
+                app = [x for x_ in st.body for x in [x_.value if isinstance(x_, ast.Expr) else None] if isinstance(x, ast.Call) and isinstance(x.func, ast.Attribute)
+                       and x.func.attr == 'append' and isinstance(x.func.value, ast.Name) and x.func.value.id == name]
+                deeper = [x for x in ast.walk(st) if isinstance(x, ast.Attribute) and x.attr in ('append', 'extend', 'insert', 'remove', 'pop') and isinstance(x.value, ast.Name) and x.value.id == name]
+                if not deeper:
+                    continue
+                m = _TABLE_ITER_RE.match(unparse(st.iter))
+                tables.add(m.group('table') if (m and len(app) == 1 and len(deeper) == 1 and not st.orelse) else None)
+        return tables.pop() if len(tables) == 1 else None
+
+    def over_table(e: ast.expr) -> str | None:
+        while isinstance(e, ast.Call) and isinstance(e.func, ast.Name) and e.func.id in ('list', 'tuple') and len(e.args) == 1 and not e.keywords:
+            e = e.args[0]
+        if isinstance(e, ast.Name):
+            return built_over(e.id)
+        if isinstance(e, ast.ListComp) and len(e.generators) == 1 and not e.generators[0].ifs:
+            e = e.generators[0].iter
+        m = _TABLE_ITER_RE.match(unparse(e))
+        return m.group('table') if m else None
+
+    def climb(x):
+        """x, or the zip(...) it is an argument of when everything zipped was built by going through the same table (entry k of each belongs to the
+        same parameter, whatever the order of the table)"""
+        p = parents.get(id(x))
+        if isinstance(p, ast.Call) and isinstance(p.func, ast.Name) and p.func.id == 'zip' and not p.keywords and any(x is a_ for a_ in p.args):
+            ts = {over_table(a_) for a_ in p.args}
+            if len(ts) == 1 and None not in ts:
+                return p
+        return x
+
+    def consumed(x):
+        x = climb(x)
+        p = parents.get(id(x))
+        if isinstance(p, ast.comprehension) and p.iter is x:
+            owner = parents.get(id(p))
+            return isinstance(owner, (ast.DictComp, ast.SetComp)) and owner.generators[0] is p  # {key(e): value(e) for e in <sequence>}
+        if not isinstance(p, ast.Call) or not any(x is a_ for a_ in p.args):
+            return False
+        if isinstance(p.func, ast.Name) and p.func.id in ORDER_FREE:
+            return True
+        # <dictionary or set>.update(<pairs or elements>) files what it is given under its key; dict.fromkeys(<names>) likewise
+        if isinstance(p.func, ast.Attribute) and p.func.attr in ('update', 'fromkeys', 'union', 'intersection', 'difference', 'issubset', 'issuperset', 'isdisjoint', 'symmetric_difference',
+                                                                  'difference_update', 'intersection_update'):
+            return True
+        return False
+
+    def stored(x):
+        """the sequence (through list / tuple / array wrappers) is stored on an object or returned"""
+        p = parents.get(id(x))
+        while isinstance(p, ast.Call) and call_name(p) in ('list', 'tuple', 'array', 'asarray') and p.args and p.args[0] is x:
+            x, p = p, parents.get(id(p))
+        if isinstance(p, ast.Return):
+            return True
+        if isinstance(p, (ast.Assign, ast.AnnAssign)) and p.value is x:
+            ts = p.targets if isinstance(p, ast.Assign) else [p.target]
+            return any(isinstance(t, (ast.Attribute, ast.Subscript)) for t in ts)
+        return False
+
+    locals_: list[str] = []
     if isinstance(node, ast.For):
         for b in node.body:
             for x in ast.walk(b):
-                if isinstance(x, ast.Call) and isinstance(x.func, ast.Attribute) and x.func.attr == 'append' and isinstance(x.func.value, ast.Name):
-                    local = x.func.value.id
+                if isinstance(x, ast.Call) and isinstance(x.func, ast.Attribute) and x.func.attr == 'append' and isinstance(x.func.value, ast.Name) and x.func.value.id not in locals_:
+                    locals_.append(x.func.value.id)
     else:
         if consumed(node):
-            return True
+            return 'free'
+        if stored(node):
+            return 'positional'
         p = parents.get(id(node))
-        if isinstance(p, ast.Assign) and len(p.targets) == 1 and isinstance(p.targets[0], ast.Name):
-            local = p.targets[0].id
-    if local is None:
-        return False
-    reads = []
-    for x in walk_no_nested(func):
-        if isinstance(x, ast.Name) and x.id == local and isinstance(x.ctx, ast.Load):
-            p = parents.get(id(x))
-            if isinstance(p, ast.Attribute) and p.attr == 'sort' and isinstance(parents.get(id(p)), ast.Call):
-                return True
-            if isinstance(p, ast.Attribute) and p.attr in ('append', 'extend'):
-                continue
-            reads.append(x)
-    return bool(reads) and all(consumed(x) for x in reads)
+        if isinstance(p, (ast.Assign, ast.AnnAssign)) and p.value is node:
+            ts = p.targets if isinstance(p, ast.Assign) else [p.target]
+            if len(ts) == 1 and isinstance(ts[0], ast.Name):
+                locals_ = [ts[0].id]
+    if not locals_:
+        return 'unknown'
+    verdicts = []
+    for local in locals_:
+        reads, in_place = [], False
+        for x in walk_no_nested(func):
+            if isinstance(x, ast.Name) and x.id == local and isinstance(x.ctx, ast.Load):
+                p = parents.get(id(x))
+                if isinstance(p, ast.Attribute) and p.attr == 'sort' and isinstance(parents.get(id(p)), ast.Call):
+                    in_place = True
+                if isinstance(p, ast.Call) and unparse(p.func) == 'list.sort' and p.args and p.args[0] is x:
+                    in_place = True  # list.sort(x) is x.sort()
+                if isinstance(p, ast.Attribute) and p.attr in ('append', 'extend'):
+                    continue
+                reads.append(x)
+        if in_place or (reads and all(consumed(x) for x in reads)):
+            verdicts.append('free')
+        elif any(stored(x) for x in reads):
+            verdicts.append('positional')
+        else:
+            verdicts.append('unknown')
+    if 'positional' in verdicts:
+        return 'positional'
+    return 'free' if all(v == 'free' for v in verdicts) else 'unknown'
+
+
+def _order_free_use(func: ast.AST, parents: dict, node: ast.AST) -> bool:
+    return _sequence_use(func, parents, node) == 'free'
 
 
 def _none_guard(test: ast.expr, v: str) -> str | None:
@@ -661,12 +887,17 @@ def ord_pack(ctx: Ctx, rule: str) -> None:
                         positional = not isinstance(n, ast.For) or any(
                             isinstance(x, ast.Call) and isinstance(x.func, ast.Attribute) and x.func.attr == 'append' for b in n.body for x in ast.walk(b)
                         )
-                        if positional and _order_free_use(f.node, parents, n):
-                            positional = False  # e.g. dict((name, value) for name, beta in <table>.items()): keyed by name
-                        if positional:
-                            ctx.add(rule, f'{f.qualname}:appearance-order', False, (f.file, n.lineno),
-                                    f'a positional sequence is built by iterating {it}: the order of a dictionary of parameters is their order of appearance in the formula, '
-                                    f'not the canonical (sorted) order of {m.group("kind")}_betas.names', detail=it, positive=True)
+                        if not positional:
+                            continue
+                        use = _sequence_use(f.node, parents, n)
+                        if use == 'free':
+                            continue  # e.g. dict((name, value) for name, beta in <table>.items()): keyed by name
+                        # a contradiction only when the sequence is kept as a per-parameter vector (stored on an object, returned); a sequence that
+                        # goes where the rule does not follow it is not an accusation
+                        ctx.add(rule, f'{f.qualname}:appearance-order', False if use == 'positional' else None, (f.file, n.lineno),
+                                f'a positional sequence is built by iterating {it}: the order of a dictionary of parameters is their order of appearance in the formula, '
+                                f'not the canonical (sorted) order of {m.group("kind")}_betas.names' + ('' if use == 'positional' else ' (where the sequence is used is not followed: not decided)'),
+                                detail=it, positive=use == 'positional')
             # O2: table lookups by loop variable
             if isinstance(n, ast.Subscript):
                 t = unparse(n.value)
@@ -680,7 +911,23 @@ def ord_pack(ctx: Ctx, rule: str) -> None:
                     if isinstance(itx, ast.Call) and call_name(itx) == 'enumerate' and itx.args:
                         itx = itx.args[0]
                     positional = isinstance(src[2], (ast.ListComp, ast.GeneratorExp, ast.For))
-                    if not positional or (not isinstance(src[2], ast.For) and _order_free_use(f.node, parents, src[2])):
+                    if not positional:
+                        continue
+                    if isinstance(src[2], ast.For):
+                        # a loop builds a positional sequence when it appends / extends / yields; one that only files values under the name it
+                        # goes through (`d[name] = ...`) and binds locals builds something keyed by name
+                        grows = any((isinstance(x, ast.Attribute) and x.attr in ('append', 'extend', 'insert')) or isinstance(x, (ast.Yield, ast.YieldFrom, ast.AugAssign)) for b_ in src[2].body for x in ast.walk(b_))
+                        stores = [t_ for b_ in src[2].body for x in ast.walk(b_) if isinstance(x, (ast.Assign, ast.AnnAssign)) for t_ in (x.targets if isinstance(x, ast.Assign) else [x.target])]
+                        keyed = all(isinstance(t_, ast.Name) or (isinstance(t_, ast.Subscript) and isinstance(t_.slice, ast.Name) and t_.slice.id in src[0]) for t_ in stores)
+                        calls_out = any(isinstance(x, ast.Call) and not (isinstance(x.func, ast.Attribute) and x.func.attr in ('append', 'extend', 'insert')) and any(isinstance(y, ast.Name) and y.id == v for a_ in list(x.args) + [k_.value for k_ in x.keywords] for y in ast.walk(a_))
+                                        for b_ in src[2].body for x in ast.walk(b_))
+                        use = 'positional' if grows else ('free' if (keyed and stores and not calls_out) else 'unknown')
+                        if grows:
+                            u2 = _sequence_use(f.node, parents, src[2])
+                            use = u2 if u2 != 'unknown' else 'positional' if not [x for b_ in src[2].body for x in ast.walk(b_) if isinstance(x, ast.Attribute) and x.attr == 'append' and isinstance(x.value, ast.Name)] else 'unknown'
+                    else:
+                        use = _sequence_use(f.node, parents, src[2])
+                    if use == 'free':
                         continue
                     # the sequence the loop variable ranges over, with locals and own properties of the class resolved
                     od = _order_of(_resolve(f, itx))
@@ -688,7 +935,7 @@ def ord_pack(ctx: Ctx, rule: str) -> None:
                     ok = od == ('names', mr.group('recv'), mr.group('kind')) or _order_of(itx) == ('names', m.group('recv'), m.group('kind'))
                     # a contradiction only when the order is known to be another one: the dictionary order, or the names of the
                     # other kind; a sequence the rule cannot classify is not an accusation
-                    wrong = od is not None and (od[0] == 'dict' or od[2] != m.group('kind'))
+                    wrong = od is not None and (od[0] == 'dict' or od[2] != m.group('kind')) and use == 'positional'
                     ctx.add(rule, f'{f.qualname}:{m.group("kind")}_betas.expressions[{v}]', ok if (ok or wrong) else None, (f.file, n.lineno),
                             f'{t}[{v}] with {v} ranging over {unparse(src[1])}' + ('' if ok else f'; a per-parameter vector must follow {m.group("recv")}.{m.group("kind")}_betas.names' if wrong else
                                                                                     f': the order of this sequence is not recognised (expected {m.group("recv")}.{m.group("kind")}_betas.names)'),
@@ -785,9 +1032,14 @@ self.elementary_expressions = ElementsTuple(expressions=None, indices=_I, names=
         out = []
         for st in body:
             prev = out[-1] if out else None
-            if (isinstance(st, ast.Expr) and isinstance(st.value, ast.Call) and isinstance(st.value.func, ast.Attribute) and st.value.func.attr == 'sort'
-                    and not st.value.args and not st.value.keywords and isinstance(st.value.func.value, ast.Name)
-                    and isinstance(prev, ast.Assign) and len(prev.targets) == 1 and isinstance(prev.targets[0], ast.Name) and prev.targets[0].id == st.value.func.value.id):
+            sorted_name = None
+            if isinstance(st, ast.Expr) and isinstance(st.value, ast.Call) and isinstance(st.value.func, ast.Attribute) and st.value.func.attr == 'sort' and not st.value.keywords:
+                if not st.value.args and isinstance(st.value.func.value, ast.Name):
+                    sorted_name = st.value.func.value.id  # x.sort()
+                elif unparse(st.value.func.value) == 'list' and len(st.value.args) == 1 and isinstance(st.value.args[0], ast.Name):
+                    sorted_name = st.value.args[0].id  # list.sort(x)
+            if (sorted_name is not None
+                    and isinstance(prev, ast.Assign) and len(prev.targets) == 1 and isinstance(prev.targets[0], ast.Name) and prev.targets[0].id == sorted_name):
                 new_ = copy.copy(prev)
                 new_.value = ast.copy_location(ast.Call(func=ast.Name(id='sorted', ctx=ast.Load()), args=[keys_of(prev.value)], keywords=[]), prev.value)
                 ast.fix_missing_locations(new_.value)
@@ -824,8 +1076,9 @@ return ElementsTuple(expressions={pn}, indices=_I, names=_N)
             srcx = keys_of(_resolve(eni, hb['__SRC'][1]))
             if isinstance(srcx, ast.ListComp) and len(srcx.generators) == 1 and not srcx.generators[0].ifs and isinstance(srcx.elt, ast.Name) and unparse(srcx.elt) == unparse(srcx.generators[0].target):
                 srcx = keys_of(srcx.generators[0].iter)
-            sorted_later = any(isinstance(x, ast.Attribute) and x.attr == 'sort' and isinstance(x.value, ast.Name) and x.value.id == hb['_N'] for x in ast.walk(eni.node)) or any(
-                isinstance(x, ast.Call) and isinstance(x.func, ast.Name) and x.func.id == 'sorted' for x in ast.walk(eni.node))
+            # (x.sort(), list.sort(x), sorted(...) anywhere, a sort through a function of another module such as np.sort / heapq)
+            sorted_later = any(isinstance(x, ast.Attribute) and x.attr in ('sort', 'sorted', 'argsort', 'nsmallest', 'nlargest', 'merge') for x in ast.walk(eni.node)) or any(
+                isinstance(x, ast.Name) and x.id in ('sorted', 'sort', 'nsmallest', 'nlargest') for x in ast.walk(eni.node))
             # a contradiction only when the names are known to be the keys of the dictionary as they come and nothing sorts them
             if isinstance(srcx, ast.Name) and srcx.id == pn and srcx is not hb['__SRC'][1] and not sorted_later:
                 unsorted = f'the names are {unparse(hb["__SRC"][1])}, not sorted({pn}): the canonical order of the parameters then depends on the order in which they appear in the formula'
